@@ -9,6 +9,7 @@ mod props;
 mod refdl;
 mod rng;
 mod rparse;
+mod sched;
 mod shrink;
 mod store;
 
